@@ -82,7 +82,7 @@ package nflog
 // C10/C04: the store a notifier works on is a copy of the logged receiver data: writing to it never changes the
 // logged entry (the entry changes only through Log).
 //@ func NewStore
-//@   props C10 C04
+//@   props C10 C04 C11
 //@   ensures [own-copy] result != nil && fresh(result) && result.data != nil && fresh(result.data)
 //@   ensures [same-content] entry != nil && entry.ReceiverData != nil ==> dom(result.data) == dom(entry.ReceiverData) && vals(result.data) == vals(entry.ReceiverData)
 //@   ensures [empty-otherwise] entry == nil || entry.ReceiverData == nil ==> len(result.data) == 0
@@ -161,7 +161,7 @@ package nflog
 // C10: merging a received batch. The log never goes backwards, only unexpired entries taken from the batch are
 // stored, keys not mentioned keep their entry, and a batch that does not decode changes nothing.
 //@ func (*Log).Merge
-//@   props C10 C19
+//@   props C10 C19 C04
 //@   ensures [monitor-lock-released] count("Mutex).Lock") == count("Mutex).Unlock") && count("Mutex).Lock") <= 1
 //@   at call state).merge assert [monitor-lock-held] count("Mutex).Lock") == 1 && count("Mutex).Unlock") == 0
 //@   requires l != nil && l.st != nil && wfState(l.st) && l.broadcast != nil && l.metrics != nil && l.metrics.propagatedMessagesTotal != nil && l.logger != nil
